@@ -128,6 +128,10 @@ pub struct SCfg {
     /// instead of on the channel (`Channel::max_concurrent_requests`)
     #[serde(default)]
     pub limit_via_incoming: bool,
+    /// (Execute route) the channel is admitted through `Incoming::max_channels_per_key`, so the
+    /// request pump talks to the transport through that adaptor's channel wrapper
+    #[serde(default)]
+    pub via_key_limit: bool,
 }
 
 fn default_dup_deadline() -> i64 {
@@ -407,6 +411,20 @@ impl World {
             (Route::Requests, None) => Reqs::Plain(Box::pin(bc.requests())),
             (Route::Requests, Some(l)) => {
                 Reqs::Limited(Box::pin(limited(bc, l).requests()))
+            }
+            (Route::Execute, limit) if cfg.via_key_limit => {
+                use tarpc::server::incoming::Incoming;
+                let mut listener = Box::pin(futures::stream::iter(vec![bc]).max_channels_per_key(1, |_: &BC| 0u8));
+                let waker = futures::task::noop_waker();
+                let mut cx = Context::from_waker(&waker);
+                let tracked = match listener.as_mut().poll_next(&mut cx) {
+                    Poll::Ready(Some(c)) => c,
+                    _ => unreachable!("the listener adaptor yields the channel at once"),
+                };
+                match limit {
+                    None => Reqs::Exec(Box::pin(tracked.execute(mk_serve(gates.clone())).map(|f| Box::pin(f) as HFut))),
+                    Some(l) => Reqs::Exec(Box::pin(tracked.max_concurrent_requests(l).execute(mk_serve(gates.clone())).map(|f| Box::pin(f) as HFut))),
+                }
             }
             (Route::Execute, None) => Reqs::Exec(Box::pin(
                 bc.execute(mk_serve(gates.clone()))
